@@ -522,6 +522,21 @@ impl Runner for R {
                     }
                 }
             }
+            ["sweep", ver, pre, lo, hi] => match (ver.parse::<usize>().ok(), pre.parse::<usize>().ok(), lo.parse::<usize>().ok(), hi.parse::<usize>().ok()) {
+                (Some(ver), Some(pre), Some(lo), Some(hi)) => {
+                    if ver > 255 || pre > 1 || hi > 65536 || lo > hi {
+                        return "bad-args".to_string();
+                    }
+                    let mut h = FNV_OFFSET;
+                    for x in lo..hi {
+                        let out = read_file(sweep_file(ver as u8, pre == 1, x));
+                        h = fnv_byte(fnv_bytes(h, read_text(&out).as_bytes()), 10);
+                    }
+                    o.add("chunk_headers_swept", (hi - lo) as u64);
+                    format!("h {}", h)
+                }
+                _ => "bad-args".to_string(),
+            },
             ["raw", d] => match parse_data(d) {
                 Some(d) => {
                     let out = read_file(d);
@@ -622,6 +637,29 @@ impl Runner for R {
             _ => "bad-op".to_string(),
         }
     }
+}
+
+/// the file of case `x` of the exhaustive chunk-header sweep (see `sweepFile` in `Drv/Demo.lean`)
+fn sweep_file(ver: u8, pre: bool, x: usize) -> Vec<u8> {
+    let mut f: Vec<u8> = b"TWDEMO\0".to_vec();
+    f.push(ver);
+    f.extend(vec![0u8; 64 + 64 + 4 + 4]);
+    f.extend(b"client\0\0");
+    f.extend(vec![0u8; 4 + 20]);
+    if ver != 3 {
+        f.extend(vec![0u8; 4 + 256]);
+    }
+    if ver == 6 {
+        f.extend([0x6b, 0xe6, 0xda, 0x4a, 0xce, 0xbd, 0x38, 0x0c, 0x9b, 0x5b, 0x12, 0x89, 0xc8, 0x42, 0xd7, 0x80]);
+        f.extend(vec![0u8; 32]);
+    }
+    if pre {
+        f.extend([0x80, 0x7f, 0xff, 0xff, 0xf6]);
+    }
+    f.push((x / 256) as u8);
+    f.push(x as u8);
+    f.extend([0x05, 0x01, 0x02, 0x03, 0x04, 0x05, 0x06, 0x07, 0x08, 0x09, 0x0a, 0x0b, 0x0c, 0x0d, 0x0e, 0x0f, 0x81, 0x00, 0x00, 0x00, 0x07, 0xa3, 0x22, 0x51]);
+    f
 }
 
 fn count_read(out: &Option<ReadOut>, o: &mut Oracle) {
@@ -931,11 +969,34 @@ impl<'a> G<'a> {
         self.line("m -".to_string());
         self.line("read".to_string());
         self.line("file".to_string());
-        for _ in 0..n_sessions {
+        // the exhaustive chunk-header sweep in hash form (thorough: every first-two-byte pattern in all
+        // four versions with and without a preceding tick; quick: a sample of ranges), spread over the sessions
+        let mut sweeps: Vec<String> = vec![];
+        if thorough {
+            for ver in 3..=6 {
+                for pre in 0..=1 {
+                    for k in 0..16 {
+                        sweeps.push(format!("sweep {} {} {} {}", ver, pre, k * 4096, (k + 1) * 4096));
+                    }
+                }
+            }
+        } else {
+            for ver in 3..=6 {
+                let pre = self.rng.below(2);
+                let k = self.rng.below(64);
+                sweeps.push(format!("sweep {} {} {} {}", ver, pre, k * 512, (k + 1) * 512));
+                sweeps.push(format!("sweep {} {} {} {}", ver, 1 - pre, 0x8000 + k * 512, 0x8000 + (k + 1) * 512));
+            }
+        }
+        for i in 0..n_sessions {
             let n = 1 + self.rng.below(12) as usize;
             self.session(n, false);
             let m = self.rng.below(6) as usize;
             self.malformed_of_session(m);
+            if i < sweeps.len() {
+                let l = sweeps[i].clone();
+                self.line(l);
+            }
         }
         for _ in 0..n_big {
             self.session(3, true);
